@@ -58,9 +58,10 @@ META = dict(
                 "control signals are not errors, written from the statement of the property) over a deep syntax with abstract leaves; "
                 "refines: the evaluator's combinators on that syntax have exactly the Spec outcome and final state; eval_is_impl / "
                 "eval_refines_spec: for EVERY tree, fuel, scope and state eval is that interpretation of the statement the tree reads as "
-                "(statements, if/elif/else, condition loops, try with otherwise/finally and with bare / typed except clauses as syntax — "
-                "spec_first_listed_clause: a typed clause of plain literals handles e iff its type is listed; for-in loops, call nodes and "
-                "error-binding clauses are leaves / whole handlers: spec_refinement_partial; calls are connected at the call node by "
+                "(statements, if/elif/else, condition loops, try with otherwise/finally and with EVERY except-clause shape as syntax: bare, typed, "
+                "`e`, `as e`, typed `as e`, typed `e` — spec_first_listed_clause(_as): a typed clause of plain literals handles e iff its type is "
+                "listed; spec_binding_clause: the error object is bound in the clause scope before the block; for-in loops and call nodes are "
+                "leaves: spec_refinement_partial; calls are connected at the call node by "
                 "eval_user_call / eval_call_refines_spec / eval_call_never_ret). (2) Per construct, arbitrary sub-trees and fuel: "
                 "if_first_true/if_guard_error; "
                 "break/continue never leave the innermost loop (condition loop and for-in, at eval level; bindLoopVars raises no loop "
